@@ -3,9 +3,9 @@
    TreeArray scores, Tree.from_split_bitmasks, calculate.statistics); vocabulary: Model/C05Spec.v.
    Numbers are exact rationals; `==` is equality of rationals. *)
 From Coq Require Import ZArith QArith Qabs List Bool Permutation Sorted.
-From DV Require Import Model.PyPrims Gen.BitFns Gen.Consts Model.C05Model Model.C05Spec
+From DV Require Import Model.PyPrims Gen.BitFns Gen.Consts Model.C05Model Model.C05Spec Model.C05Model2
      Proofs.C05Lists Proofs.C05Freq Proofs.C05Consensus Proofs.C05Stats Proofs.C05Trees
-     Proofs.C05Array Proofs.C05Examples Proofs.C05Final.
+     Proofs.C05Array Proofs.C05Examples Proofs.C05Final Proofs.C05Bits Proofs.C05Laminar Proofs.C05Final2 Proofs.C05Scores Proofs.C05Unique Proofs.C05Final3.
 Import ListNotations.
 Open Scope Z_scope.
 
@@ -159,22 +159,50 @@ Theorem consensus_spans_namespace : forall (all : Z) (bits : list Z) (rooted : b
 Proof. exact consensus_spans_namespace_l. Qed.
 Print Assumptions consensus_spans_namespace.
 
-(* PARTIAL.  Full statement (not proved): the internal clades of the tree built by the coded
-   insertion are exactly `all` and the clades accepted at the set level,
-     forall c, In c (ct_clades (fsb_tree all bits rooted ss)) <->
-               c = all \/ In c (greedy all [] (fsb_prepare all rooted ss)).
-   Proved: the tree-level insertion never invents a clade (every internal clade is the star's
-   root or one of the prepared candidates) and keeps the leaves (consensus_spans_namespace).
-   Missing: the laminar-family invariant showing that "the children of the smallest enclosing
-   node that meet the split add up to it" coincides with "compatible with every clade accepted
-   so far".  The equality of the two levels is evaluated on every correspondence case (model
-   `step` returns an error output when they differ). *)
-Theorem consensus_tree_clades_partial :
-  forall (all : Z) (bits : list Z) (rooted : bool) (ss : list Z) (c : Z),
-  In c (ct_clades (fsb_tree all bits rooted ss)) ->
-  In c (ct_clades (ct_star all bits)) \/ In c (fsb_prepare all rooted ss).
-Proof. exact consensus_tree_clades_sound_l. Qed.
-Print Assumptions consensus_tree_clades_partial.
+(* The tree built by the transcribed insertion loop of Tree.from_split_bitmasks (smallest
+   enclosing node found from a leaf; the children meeting the split are moved under a new node
+   iff they add up to it) has as internal clades exactly the root `all` and the clades accepted
+   by the set-level greedy selection; it keeps every leaf and the root mask.  Namespace: one
+   distinct bit 2^i per taxon, at least two taxa, all = OR of the bits.  (Proof: laminar-family
+   invariant, Proofs/C05Laminar.v.) *)
+Theorem consensus_tree_clades :
+  forall (all : Z) (idxs bits : list Z) (rooted : bool) (ss : list Z),
+  bits = map (Z.pow 2) idxs -> NoDup idxs -> (forall i, In i idxs -> 0 <= i) ->
+  (2 <= length idxs)%nat -> all = fold_left Z.lor bits 0 ->
+  (forall c, In c (ct_clades (fsb_tree all bits rooted ss)) <->
+             c = all \/ In c (greedy all [] (fsb_prepare all rooted ss))) /\
+  Permutation (ct_leaves (fsb_tree all bits rooted ss)) bits /\
+  ct_mask (fsb_tree all bits rooted ss) = all.
+Proof. exact consensus_tree_clades_full. Qed.
+Print Assumptions consensus_tree_clades.
+
+(* the same under the boolean namespace check that case2_ok evaluates on every correspondence
+   case (positive single distinct bits, >= 2 taxa, all = OR of the bits) *)
+Theorem consensus_tree_clades_checked : forall (all : Z) (bits : list Z) (rooted : bool) (ss : list Z),
+  ns_okb all bits = true ->
+  forall c, In c (ct_clades (fsb_tree all bits rooted ss)) <->
+            c = all \/ In c (greedy all [] (fsb_prepare all rooted ss)).
+Proof. exact consensus_tree_clades_checked. Qed.
+Print Assumptions consensus_tree_clades_checked.
+
+(* one insertion, in full: on a well-formed clade tree (every internal node is the disjoint
+   union of >= 2 children, leaves are single bits) inserting a non-empty s inside the root
+   keeps mask and well-formedness and either (i) s is already a node: nothing changes,
+   (ii) s is new and nested-or-disjoint with every node: the clades gain exactly s, or
+   (iii) s is new and properly overlaps some clade: nothing changes *)
+Theorem tree_insertion_spec : forall (s : Z) (t : ctree),
+  s <> 0 -> wf t -> Z.land s (ct_mask t) = s ->
+  ct_mask (ct_insert s t) = ct_mask t /\ wf (ct_insert s t) /\
+  ((In s (ct_masks t) /\ ct_insert s t = t) \/
+   (~ In s (ct_masks t) /\
+    (forall c, In c (ct_masks t) -> Z.land s c = 0 \/ Z.land s c = s \/ Z.land c s = c) /\
+    (forall c, In c (ct_clades (ct_insert s t)) <-> c = s \/ In c (ct_clades t))) \/
+   (~ In s (ct_masks t) /\
+    (exists c, In c (ct_clades t) /\ ~ (Z.land s c = 0 \/ Z.land s c = s \/ Z.land c s = c)) /\
+    ct_insert s t = t)).
+Proof. exact (fun s t NZ W S => ct_insert_spec s NZ t W S). Qed.
+Print Assumptions tree_insertion_spec.
+
 
 (* all counted trees rooted -> rooted; none rooted -> unrooted *)
 Theorem consensus_rooting : forall (c : config) (ts : list tree_in) (b : bool),
@@ -303,6 +331,114 @@ Theorem mcc_topology :
             In m (fsb_prepare all (truthy (ta_rooting a)) (splits_of t)) /\ is_single m = false.
 Proof. exact mcc_topology_l. Qed.
 Print Assumptions mcc_topology.
+
+(* tree level: the tree restore_tree(i) builds has as internal clades `all` and exactly the
+   non-leaf clades of the i-th tree added *)
+Theorem mcc_tree_clades :
+  forall (fw : bool) (c : config) (ts : list tree_in) (a : ta) (all : Z) (idxs bits : list Z)
+         (i : nat) (t : tree_in),
+  bits = map (Z.pow 2) idxs -> NoDup idxs -> (forall j, In j idxs -> 0 <= j) ->
+  (2 <= length idxs)%nat -> all = fold_left Z.lor bits 0 ->
+  ta_add_trees fw c (ta_empty None) ts = Ok a ->
+  nth_error ts i = Some t ->
+  tree_compatible all (truthy (ta_rooting a)) t = true ->
+  forall m, In m (ct_clades (fsb_tree all bits (truthy (ta_rooting a)) (nth i (ta_splits a) []))) <->
+            m = all \/ (In m (fsb_prepare all (truthy (ta_rooting a)) (splits_of t)) /\ is_single m = false).
+Proof. exact mcc_tree_clades_l. Qed.
+Print Assumptions mcc_tree_clades.
+
+(* ------------------------------------------------------------------ canonical topology *)
+
+(* a well-formed clade tree (inner nodes = disjoint union of >= 2 children, leaves = single
+   bits) is determined up to the order of children by its set of node masks:
+   equal canonical forms (children sorted by mask, recursively) <-> equal root mask and equal
+   mask sets *)
+Theorem clade_tree_canonical : forall t1 t2 : ctree, wf t1 -> wf t2 ->
+  (ct_canon t1 = ct_canon t2 <->
+   ct_mask t1 = ct_mask t2 /\ (forall x, In x (ct_masks t1) <-> In x (ct_masks t2))).
+Proof. exact canon_iff_masks. Qed.
+Print Assumptions clade_tree_canonical.
+
+(* the consensus tree is THE tree (up to child order) whose clades are the accepted set *)
+Theorem consensus_tree_canonical :
+  forall (all : Z) (idxs bits : list Z) (rooted : bool) (ss : list Z) (T : ctree),
+  bits = map (Z.pow 2) idxs -> NoDup idxs -> (forall i, In i idxs -> 0 <= i) ->
+  (2 <= length idxs)%nat -> all = fold_left Z.lor bits 0 ->
+  wf T -> ct_mask T = all -> Permutation (ct_leaves T) bits ->
+  (forall c, In c (ct_clades T) <-> c = all \/ In c (greedy all [] (fsb_prepare all rooted ss))) ->
+  ct_canon (fsb_tree all bits rooted ss) = ct_canon T.
+Proof. exact consensus_tree_canonical_l. Qed.
+Print Assumptions consensus_tree_canonical.
+
+(* maximum-credibility clause as an equality of topologies: the tree restore_tree(i) rebuilds
+   has the canonical form of any well-formed clade tree over the namespace that has the clades
+   of the i-th input tree *)
+Theorem mcc_canonical_topology :
+  forall (fw : bool) (c : config) (ts : list tree_in) (a : ta) (all : Z) (idxs bits : list Z)
+         (i : nat) (t : tree_in) (T : ctree),
+  bits = map (Z.pow 2) idxs -> NoDup idxs -> (forall j, In j idxs -> 0 <= j) ->
+  (2 <= length idxs)%nat -> all = fold_left Z.lor bits 0 ->
+  ta_add_trees fw c (ta_empty None) ts = Ok a ->
+  nth_error ts i = Some t ->
+  tree_compatible all (truthy (ta_rooting a)) t = true ->
+  wf T -> ct_mask T = all -> Permutation (ct_leaves T) bits ->
+  (forall m, In m (ct_clades T) <->
+             m = all \/ (In m (fsb_prepare all (truthy (ta_rooting a)) (splits_of t)) /\ is_single m = false)) ->
+  ct_canon (fsb_tree all bits (truthy (ta_rooting a)) (nth i (ta_splits a) [])) = ct_canon T.
+Proof. exact mcc_canonical_topology_l. Qed.
+Print Assumptions mcc_canonical_topology.
+
+(* ------------------------------------------------------------------ per-tree scores, lookups *)
+
+(* split_support_iter: one value per visited node (preorder or postorder; the seed node is an
+   internal node; leaves only with include_external_splits), each the exact frequency of the
+   node's split *)
+Theorem split_support_iter_exact :
+  forall (c : config) (ts : list tree_in) (post ext : bool) (t : stree),
+  (forall t, In t ts -> NoDup (splits_of t)) ->
+  Forall2 (fun q n => (q == exact_freq c ts (sn_split n))%Q)
+          (snd (split_support_iter (count_trees c sd_empty ts) post ext t))
+          (filter (fun n => ext || negb (st_is_leaf n)) (if post then st_postorder t else st_preorder t)).
+Proof. exact split_support_iter_exact_l. Qed.
+Print Assumptions split_support_iter_exact.
+
+Theorem support_iter_order_irrelevant : forall (ext : bool) (t : stree),
+  Permutation (support_nodes true ext t) (support_nodes false ext t).
+Proof. exact support_nodes_perm_l. Qed.
+Print Assumptions support_iter_order_irrelevant.
+
+Theorem tree_sum_score_exact : forall (c : config) (ts : list tree_in) (ext : bool) (t : stree),
+  (forall t, In t ts -> NoDup (splits_of t)) ->
+  (snd (sum_of_split_support_on_tree (count_trees c sd_empty ts) ext t)
+   == qsum (map (fun n => exact_freq c ts (sn_split n)) (support_nodes false ext t)))%Q.
+Proof. exact tree_sum_score_exact_l. Qed.
+Print Assumptions tree_sum_score_exact.
+
+(* log_product_of_split_support_on_tree, exponentiated, in exact arithmetic *)
+Theorem tree_product_score_exact : forall (c : config) (ts : list tree_in) (ext : bool) (t : stree),
+  (forall t, In t ts -> NoDup (splits_of t)) ->
+  (snd (product_of_split_support_on_tree (count_trees c sd_empty ts) ext t)
+   == qprod_nz (map (fun n => exact_freq c ts (sn_split n)) (support_nodes false ext t)))%Q.
+Proof. exact tree_product_score_exact_l. Qed.
+Print Assumptions tree_product_score_exact.
+
+(* TreeList.frequency_of_bipartition(split_bitmask=s): all trees rooted: fraction of trees
+   whose encoding lists s; all unrooted: fraction listing normalize(s).  Never weighted. *)
+Theorem frequency_of_bipartition_exact : forall (all s : Z) (unrooted : bool) (ts : list tree_in),
+  ts <> [] ->
+  let key := if unrooted then py_normalize_bitmask s all 1 else s in
+  (frequency_of_bipartition all s (map (fun t => mkFob (splits_of t) (Some unrooted)) ts)
+   == inject_Z (Z.of_nat (length (filter (contains_split key) ts))) / inject_Z (Z.of_nat (length ts)))%Q.
+Proof. exact frequency_of_bipartition_exact_l. Qed.
+Print Assumptions frequency_of_bipartition_exact.
+
+(* TreeArray.split_bitmask_set_frequencies: the value under split set K is the weight of the
+   stored trees whose split set is K over calc_normalization_weight() (0 when no tree has it) *)
+Theorem topology_frequency_exact : forall (a : ta) (K : list Z),
+  (kget_d K (split_bitmask_set_frequencies a)
+   == topo_weight K (zip (ta_splits a) (ta_weights a)) / normalization_weight (ta_sd a))%Q.
+Proof. exact topology_frequency_exact_l. Qed.
+Print Assumptions topology_frequency_exact.
 
 (* ------------------------------------------------------------------ TreeArray weighting *)
 
